@@ -40,6 +40,22 @@ def leave(text):
     raise SystemExit(text)
 def helper(v):
     return v * 2
+class Unprintable(Exception):
+    def __str__(self):
+        raise RuntimeError('no text for you')
+class UnprintableBase(Exception):
+    def __str__(self):
+        raise KeyboardInterrupt()
+class NotText(Exception):
+    def __str__(self):
+        return self.args[0]
+def unprintable(kind):
+    raise kind(404)
+class BadNum:
+    def __float__(self):
+        raise KeyboardInterrupt()
+    def __str__(self):
+        raise KeyboardInterrupt()
 def target(xs):
     lst = [1, 2]
     d = {}
@@ -90,6 +106,9 @@ EXPRS = [
     ('(tmp := x + 1)', 'binding'), ('(acc := 77)', 'binding'),
     # a value that *is* an exception object is a value, not a failure
     ('ValueError("held")', 'exception-value'),
+    # failures whose exception has no text, or none that can be taken; a value that cannot be converted
+    ('unprintable(Unprintable)', 'failing'), ('unprintable(UnprintableBase)', 'failing'), ('unprintable(NotText)', 'failing'),
+    ('next(iter([]))', 'failing'), ('BadNum()', 'hostile-value'),
 ]
 
 
@@ -112,6 +131,13 @@ def cases(tier, seed):
     for a in range(len(EXPRS)):
         for b in range(len(EXPRS)):
             out.append({'k': 'pair', 'a': a, 'b': b})
+    # the same for log fields, metric expressions and label expressions: one of the two fails (or is hostile), the other is x + 1
+    fine = [i for i, (e, _) in enumerate(EXPRS) if e == 'x + 1'][0]
+    for src in ('log', 'metric', 'label'):
+        for a in range(len(EXPRS)):
+            if EXPRS[a][1] in ('failing', 'hostile-value', 'agent-name'):
+                out.append({'k': 'pair', 'a': a, 'b': fine, 'src': src})
+                out.append({'k': 'pair', 'a': fine, 'b': a, 'src': src})
     return out
 
 
@@ -335,7 +361,7 @@ def case_expr(ctx, desc):
             ctx.violation(f'C10/expr/{src}/watch-count', f'{src} {expr!r}: expected 1 {want_source} result, got {len(ws)}', desc)
             return
         check_watch(ctx, desc, snap, ws[0], ref, expr, cls, src)
-        if src == 'log' and ref[0] == 'ok':
+        if src == 'log' and ref[0] == 'ok' and cls != 'hostile-value':
             logs = agent.events('log')
             if len(logs) != 1 or logs[0][2] != '[deep] ' + str(ref[1]):
                 ctx.violation(f'C10/scope/log/{cls}-message', f'log field {expr!r}: expected {"[deep] " + str(ref[1])!r}, got {[l[2] for l in logs]!r}', desc)
@@ -354,15 +380,72 @@ def case_expr(ctx, desc):
             elif value != 1:
                 ctx.violation(f'C10/scope/metric/{cls}-not-default', f'metric expression {expr!r}: reference {ref!r} is not numeric, value must be 1, got {value!r}', desc)
         else:
-            if ref[0] == 'ok':
-                if labels.get('l0') != str(ref[1]):
-                    ctx.violation(f'C10/scope/label/{cls}-wrong-value', f'label expression {expr!r}: reference {ref[1]!r}, agent {labels!r}', desc)
+            if labels.get('l0') != label_text(ref):
+                ctx.violation(f'C10/scope/label/{cls}-wrong-value', f'label expression {expr!r}: reference {ref!r} - label {label_text(ref)!r}, agent {labels!r}', desc)
             elif cls == 'agent-name' and 'class' in str(labels.get('l0')) or cls == 'agent-name' and 'function' in str(labels.get('l0')) \
                     or cls == 'agent-name' and 'module' in str(labels.get('l0')):
                 ctx.violation('C10/scope/label/agent-name-visible', f'label expression {expr!r} resolved an agent-internal name: {labels!r}', desc)
 
 
+def label_text(ref):
+    """What a label expression is worth: the text of its value; 'expression failed' when the expression fails or has no text."""
+    if ref[0] != 'ok':
+        return 'expression failed'
+    try:
+        return str(ref[1])
+    except BaseException:
+        return 'expression failed'
+
+
+def case_pair_other(ctx, desc):
+    """Two log fields / two metrics / two labels of one metric: what one of them does is no business of the other."""
+    (ea, ca), (eb, cb) = EXPRS[desc['a']], EXPRS[desc['b']]
+    src = desc['src']
+    agent, refs = _run_exprs(ctx, desc, src, [ea, eb])
+    if agent is None:
+        return
+    ctx.nt(('pair', src, desc['a'], desc['b']))
+    ctx.outcome(('pair', src, refs[0][0], refs[1][0]))
+    if src == 'log':
+        if len(agent.snapshots) != 1:
+            ctx.violation('C10/pair/log/no-snapshot', f'log fields {[ea, eb]!r}: expected 1 snapshot, got {len(agent.snapshots)}', desc)
+            return
+        snap = agent.snapshots[0]
+        ws = [w for w in snap.watches if w.source == 'LOG']
+        if [w.expression for w in ws] != [ea, eb]:
+            ctx.violation('C10/pair/log/watch-list', f'log fields {[ea, eb]!r}: got results for {[w.expression for w in ws]!r}', desc)
+            return
+        check_watch(ctx, desc, snap, ws[0], refs[0], ea, ca, 'log')
+        check_watch(ctx, desc, snap, ws[1], refs[1], eb, cb, 'log')
+        logs = [l[2] for l in agent.events('log')]
+        good = 0 if refs[0][0] == 'ok' and ca != 'hostile-value' else 1
+        text = str(refs[good][1])
+        ok = len(logs) == 1 and logs[0].startswith('[deep] ') and \
+            (logs[0][7:].startswith(text + '|') if good == 0 else logs[0].endswith('|' + text))
+        if not ok:
+            ctx.violation('C10/pair/log/healthy-field-lost', f'log fields {[ea, eb]!r}: field {good} is worth {text!r}, message {logs!r}', desc)
+        return
+    ms = agent.events('metric')
+    if src == 'metric':
+        got = [(m[3], m[8]) for m in ms]
+        want = []
+        for i, r in enumerate(refs):
+            want.append(('m%d' % i, float(r[1]) if r[0] == 'ok' and isinstance(r[1], (int, float)) else 1))
+        if got != want:
+            ctx.violation('C10/pair/metric/not-each-reported', f'metric expressions {[ea, eb]!r}: expected metric calls {want!r}, got {got!r}', desc)
+        return
+    if len(ms) != 1:
+        ctx.violation('C10/pair/label/metric-count', f'label expressions {[ea, eb]!r}: expected 1 metric call, got {len(ms)}', desc)
+        return
+    labels = ms[0][4]
+    want = {'l0': label_text(refs[0]), 'l1': label_text(refs[1])}
+    if labels != want:
+        ctx.violation('C10/pair/label/wrong-labels', f'label expressions {[ea, eb]!r}: expected labels {want!r}, got {labels!r}', desc)
+
+
 def case_pair(ctx, desc):
+    if desc.get('src'):
+        return case_pair_other(ctx, desc)
     (ea, ca), (eb, cb) = EXPRS[desc['a']], EXPRS[desc['b']]
     agent, refs = _run_exprs(ctx, desc, 'watch', [ea, eb])
     if agent is None:
